@@ -34,8 +34,11 @@ func verifClientOffers11(i *IPC, arg messages.Arg, response *[]byte) error {
 
 type verifArmorRec struct{}
 
-func (verifArmorRec) Write(p []byte) (int, error) { verifArmored = append(verifArmored, p...); return len(p), nil }
-func (verifArmorRec) Close() error                { verifArmorDone++; return nil }
+func (verifArmorRec) Write(p []byte) (int, error) {
+	verifArmored = append(verifArmored, p...)
+	return len(p), nil
+}
+func (verifArmorRec) Close() error { verifArmorDone++; return nil }
 func verifNewArmorEncoder(w io.Writer) (io.WriteCloser, error) {
 	verifArmorOpen++
 	return verifArmorRec{}, nil
